@@ -876,6 +876,57 @@ def correspondence(ctx):
         ctx.compare('mute', {'mode': 'long', 'i': i, 'ns': ns, 'mute_window_samples': M}, a, b, nontrivial=bool(pat.any() and not pat.all()),
                     tags=('mode=long_flags', 'pattern=' + pkind))
     ctx.note(f'defaults read from the real signature: {dflt}; flagged samples over all cases: {nflag}')
+    _scale_cases(ctx)
+
+
+SEAMS = (1024, 4096, 8192, 30000, 32768, 60000, 65536)
+
+
+def _case_scale(ctx, i):
+    """A recording LONGER than any block an implementation could work in (2^15, 2^16, 30000, 60000 samples ...), a few
+    channels wide; amplitude-only and slew-only events planted on and next to the multiples of those block sizes (and at
+    random positions), far enough apart for the mute clauses to be judged one by one."""
+    rng = ctx.subrng(11, i)
+    nc = int(rng.choice([3, 4, 5, 8]))
+    ns = int(rng.choice([65537 + 40, 70001, 98304 + 33, 131072 + 77]))
+    dtype = np.float32 if i % 2 == 0 else np.float64
+    fs, v = 30000.0, 1e-8
+    data = np.zeros((nc, ns), dtype=dtype)
+    # cases 0, 1, 2 are systematic: the step INTO a block boundary (slew between m*b - 1 and m*b), an amplitude event ON the
+    # boundary sample, the step out of it; later cases draw the offset and the kind at random
+    plan = {0: (-1, 'slew'), 1: (0, 'amp'), 2: (0, 'slew')}.get(i)
+    pos = {}
+    for b in SEAMS:
+        for m in range(1, ns // b + 1):
+            d, kind = plan if plan else (int(rng.integers(-2, 2)), 'slew' if rng.random() < 0.5 else 'amp')
+            if 0 < m * b + d < ns - 2:
+                pos.setdefault(m * b + d, kind)
+    for x in rng.integers(5, ns - 5, size=30):
+        pos.setdefault(int(x), 'slew' if rng.random() < 0.5 else 'amp')
+    last = -100
+    for t in sorted(pos):
+        if t - last < 12:            # keep events apart (mute half-width 3)
+            continue
+        last = t
+        k = nc if (plan or rng.random() < 0.7) else 0          # all channels (flagged) or none
+        if pos[t] == 'amp':
+            data[:k, t] = data[:k, t] + dtype(0.59) * (1 if data[0, t] >= 0 else -1)     # one sample beyond 98 % of range 1.0 ...
+            # ... reached by two steps of 0.59: flagged by amplitude at t; the slew into and out of it is flagged too (adjacent samples)
+        else:
+            data[:k, t + 1:] += dtype(0.4) * (1 if data[0, t] <= 0 else -1)      # a step between t and t+1: slew only (|x| stays < 0.98)
+    case = {'data': data, 'max_voltage': 1.0, 'v_per_sec': v, 'fs': fs, 'proportion': 0.2, 'mute_window_samples': 7, 'form': None}
+    return case
+
+
+def _scale_cases(ctx):
+    for i in range(ctx.n(3, 12)):
+        case = _case_scale(ctx, i)
+        r = _safe_oracle(case)
+        nc, ns = case['data'].shape
+        ctx.compare('scale', {'mode': 'scale', 'i': i, 'nc': nc, 'ns': ns, 'dtype': str(case['data'].dtype)},
+                    'ok' if r is None else 'C16 fails at scale: ' + str(r)[:300], 'ok', tags=('scale', 'scale-ns>65536'))
+        if r is not None:
+            ctx.scale_failures = getattr(ctx, 'scale_failures', []) + [(i, r)]
 
 
 # ---------------------------------------------------------------------------------------------
@@ -1208,10 +1259,25 @@ def search(ctx, reasons):
                 break
     if found:
         return _report(*_shrink(*found))
+    for i, r in getattr(ctx, 'scale_failures', []):
+        case = _case_scale(ctx, i)
+        nc, ns = case['data'].shape
+        return {'input': {'generator': 'harness/props/c16.py _case_scale(ctx, i)', 'i': i, 'seed': ctx.seed, 'nc': nc, 'ns': ns,
+                          'dtype': str(case['data'].dtype), 'max_voltage': 1.0, 'v_per_sec': 1e-8, 'fs': 30000.0, 'proportion': 0.2,
+                          'mute_window_samples': 7,
+                          'events': 'all channels: one sample at 0.995 (amplitude) or a 0.4 step between t and t+1 (slew), on and next to '
+                                    'multiples of ' + str(SEAMS)},
+                'observed': str(r), 'expected': 'C16: flags follow the proportion rule at every sample, mute 0 on flags and 1 beyond the half width',
+                'how': 'harness/props/c16.py oracle(_case_scale(ctx, i)) with VERIF_SEED = seed'}
     return None
 
 
 def replay(ctx, rep):
+    if rep['input'].get('generator', '').endswith('_case_scale(ctx, i)'):
+        ctx.seed = int(rep['input'].get('seed', ctx.seed))
+        r = _safe_oracle(_case_scale(ctx, int(rep['input']['i'])))
+        print('oracle:', r)
+        return r is not None
     r = _safe_oracle(_import(rep['input']))
     print('oracle:', r)
     return r is not None
